@@ -91,12 +91,16 @@ func (d *Document) BlockStringValueContentBytes(ref int) []byte {
 	}
 
 	// find first non-whitespace-only line
-	firstLine := 0
+	firstLine := -1
 	for i, line := range lines {
 		if leadingWhitespaceCount(line) != len(line) {
 			firstLine = i
 			break
 		}
+	}
+	if firstLine == -1 {
+		// only whitespace: every line is removed
+		return []byte{}
 	}
 
 	// find last non-whitespace-only line
